@@ -95,7 +95,19 @@ def load_and_run(sc, need_nonneg, sliver=0.0):
             out.append(("negative-soc", "greedy run on the generated scenario aborted at step %d" % s.step_i))
         lo = min([v for row in s.socs for v in row if v is not None] + [0.0])
         if lo < -1e-9:
-            cls = "negative-soc/min-power-sliver" if lo >= -sliver else "negative-soc"
+            # negative only at first arrivals: the vehicle started with the configured minimum SoC and had too little time
+            # before its first trip (low --min-soc with a late --start-time)
+            first_arr = {}
+            for e in js["events"]["vehicle_events"]:
+                if e["event_type"] == "arrival":
+                    first_arr.setdefault(e["vehicle_id"], e["start_time"])
+            trk = getattr(s, "negative_soc_tracker", {}) or {}
+            only_first = bool(trk) and all(len(ts_) == 1 and vid in first_arr and
+                                           abs((datetime.datetime.fromisoformat(ts_[0].replace(" ", "T")) -
+                                                datetime.datetime.fromisoformat(first_arr[vid])).total_seconds()) <= s.interval.total_seconds()
+                                           for vid, ts_ in trk.items())
+            cls = ("negative-soc/min-power-sliver" if lo >= -sliver else
+                   "negative-soc/initial-soc-before-first-trip" if only_first else "negative-soc")
             out.append((cls, "greedy run with ample connector power: lowest SoC %r (one step at minimum charging power = %.4f SoC)" % (lo, sliver)))
     return out
 
